@@ -1,2 +1,97 @@
+import PelModel.Cli
+import PelProofs.Cli
+import PelProps.C07
+/-
+  C10 — Look-ups by platform log id, BMC id, entry id and SRC return exactly the matches.
+-/
 namespace Pel.C10
+
+/-- ★ every spelling of a 32-bit id (eight hex digits in either case, with or without 0x / 0X) is normalised to the
+    eight upper-case digits of that id -/
+theorem processId_spellings (v : Nat) (hv : v < 2 ^ 32) :
+    processId (hexFix 8 v) = some (hexFix 8 v) ∧ processId (hexFixL 8 v) = some (hexFix 8 v) ∧
+    processId (s "0x" ++ hexFix 8 v) = some (hexFix 8 v) ∧ processId (s "0x" ++ hexFixL 8 v) = some (hexFix 8 v) ∧
+    processId (s "0X" ++ hexFix 8 v) = some (hexFix 8 v) ∧ processId (s "0X" ++ hexFixL 8 v) = some (hexFix 8 v) := by
+  have hl : (hexFix 8 v).length = 8 := hexFix_length 8 v
+  have hnp : (s "0X").isPrefixOf (hexFix 8 v) = false := hexFix_no_0X 6 v
+  refine ⟨?_, ?_, ?_, ?_, ?_, ?_⟩
+  · exact processId_plain _ _ (map_upper_hexFix 8 v) hnp hl
+  · exact processId_plain _ _ (map_upper_hexFixL 8 v) hnp hl
+  · exact processId_0X _ _ (by rw [List.map_append, map_upper_0x, map_upper_hexFix]) hl
+  · exact processId_0X _ _ (by rw [List.map_append, map_upper_0x, map_upper_hexFixL]) hl
+  · exact processId_0X _ _ (by rw [List.map_append, map_upper_0X, map_upper_hexFix]) hl
+  · exact processId_0X _ _ (by rw [List.map_append, map_upper_0X, map_upper_hexFixL]) hl
+
+/-- ★ the comparison made by `--plid` is equality of the 32-bit ids (also for values below 0x10000000) -/
+theorem plid_match_exact (v w : Nat) (hv : v < 2 ^ 32) (hw : w < 2 ^ 32) : (hexFix 8 v = fmtHex 8 w) ↔ v = w := by
+  exact hexFix8_eq_fmtHex_iff v w hv hw
+
+/-- the summaries selected by `--plid`: exactly the decodable files whose platform log id is `v`, in list order -/
+def plidMatches (env : Env) (o : CliOpts) (v : Nat) (d : Dir) : List Summary :=
+  (getFileList d o.ext o.rev).filterMap fun f =>
+    match parseSummary env { o.cfg with lookup := true } f.data with
+    | .summary sm plid _ => if plid = v then some sm else none
+    | _ => none
+
+/-- ★ `--plid X` lists exactly the PELs whose platform log id equals X -/
+theorem plid_exact (env : Env) (o : CliOpts) (v : Nat) (hv : v < 2 ^ 32) (d : Dir) (x : Text)
+    (hx : processId x = some (hexFix 8 v)) (hnohex : o.hex = false)
+    (hplids : ∀ f ∈ d, ∀ sm plid src, parseSummary env { o.cfg with lookup := true } f.data = .summary sm plid src → plid < 2 ^ 32) :
+    (plidMode env o x d).stdout = prettyPrint 29 (dumps (summaryObj (plidMatches env o v d))) ++ nl ∧
+    (plidMode env o x d).exit = 0 := by
+  have hpl : ∀ f ∈ getFileList d o.ext o.rev, ∀ sm plid src,
+      parseSummary env { o.cfg with lookup := true } f.data = .summary sm plid src → plid < 2 ^ 32 :=
+    fun f hf => hplids f (mem_getFileList hf)
+  have key := plid_filter_eq env { o.cfg with lookup := true } v hv (getFileList d o.ext o.rev) hpl
+  simp only [plidMode, hx, hnohex, Bool.false_eq_true, if_false]
+  refine ⟨?_, trivial⟩
+  exact congrArg (fun l => prettyPrint 29 (dumps (summaryObj l)) ++ nl) key
+
+/-- ★ hidden and non-serviceable PELs are found by the look-ups without extra options: with no selection option the
+    look-up configuration selects every PEL -/
+theorem lookups_consider_all (sev af : Nat) : considerPEL sev af { ({} : SelCfg) with lookup := true } = true := by
+  exact Pel.C07.lookup_considers_all sev af
+
+/-- ★ `--id E`: a PEL is displayed only from a file whose name contains the processed id; none ⇒ "PEL not found" -/
+theorem id_lookup (env : Env) (o : CliOpts) (e pid : Text) (d : Dir) (hp : processId e = some pid) :
+    (∀ f ∈ d, isInfix pid f.name = false) → (idMode env o e d).stdout = s "PEL not found\n" := by
+  intro h
+  have hf : d.find? (fun f => isInfix pid f.name) = none := by
+    rw [List.find?_eq_none]
+    intro f hfd
+    simp [h f hfd]
+  rw [idMode_notfound hp hf]
+
+theorem id_lookup_found (env : Env) (o : CliOpts) (e pid : Text) (d : Dir) (hp : processId e = some pid) (f : FileEntry)
+    (hf : d.find? (fun f => isInfix pid f.name) = some f) :
+    (idMode env o e d).stdout = (printOne env o { o.cfg with lookup := true } f).1 := by
+  exact idMode_found hp hf
+
+/-- ★ `--bmc-id N`: when no file has that BMC event log id the answer is "PEL not found" -/
+theorem bmcid_not_found (env : Env) (o : CliOpts) (n : Text) (d : Dir)
+    (h : ∀ f ∈ d, ∀ j ph rest, (do let h1 ← parseHeader; decodePH env.T h1) f.data = .ok ((j, ph), rest) → natDec ph.obmcLogID ≠ n) :
+    (bmcIdMode env o n d).stdout = s "PEL not found\n" := by
+  exact bmcIdGo_notfound env o n d 0 h
+
+/-- decimal ids identify: two BMC ids with the same decimal text are equal -/
+theorem bmcid_text_injective (a b : Nat) (h : natDec a = natDec b) : a = b := by
+  exact natDec_inj a b h
+
+/-- the summaries selected by `--src S` -/
+def srcMatches (env : Env) (o : CliOpts) (needle : Text) (d : Dir) : List Summary :=
+  (getFileList d o.ext o.rev).filterMap fun f =>
+    match parseSummary env { o.cfg with lookup := true } f.data with
+    | .summary sm _ (some rc) => if isInfix needle rc then some sm else none
+    | _ => none
+
+/-- ★ `--src S` lists exactly the PELs whose reference code contains S -/
+theorem src_exact (env : Env) (o : CliOpts) (needle : Text) (d : Dir) (hn : needle ≠ []) (hl : needle.length ≤ 32)
+    (hnohex : o.hex = false) :
+    (srcMode env o (some needle) none d).stdout = prettyPrint 29 (dumps (summaryObj (srcMatches env o needle d))) ++ nl := by
+  exact srcMode_stdout env o needle d hn hl hnohex
+
+/-- `isInfix` is "occurs as a contiguous substring" -/
+theorem isInfix_iff (needle hay : Text) : isInfix needle hay = true ↔ ∃ a b, hay = a ++ needle ++ b := by
+  exact isInfix_iff_exists needle hay
+
 end Pel.C10
